@@ -384,6 +384,35 @@ func TestVerif_C04_Histories(t *testing.T) {
 				ok := w.lease(i)
 				w.logf("lease %d -> %v", i, ok)
 			},
+			// one lease of a live token is revoked on its own (sys/leases/revoke, synchronously); half of the time the
+			// secrets engine refuses, the request fails and the lease stays - the later revocation of its token must
+			// still take it along
+			"lease-revoke": func(rt *rapid.T) {
+				var cands []int
+				for _, i := range w.aliveIdx() {
+					if len(w.toks[i].leases) > 0 {
+						cands = append(cands, i)
+					}
+				}
+				if len(cands) == 0 {
+					rt.Skip("no live token with a lease")
+				}
+				i := cands[rapid.IntRange(0, len(cands)-1).Draw(rt, "tok")]
+				l := w.toks[i].leases[rapid.IntRange(0, len(w.toks[i].leases)-1).Draw(rt, "lease")]
+				refuse := rapid.Bool().Draw(rt, "backendRefuses")
+				w.hub.mu.Lock()
+				was := w.hub.failRevoke
+				w.hub.failRevoke = refuse
+				w.hub.mu.Unlock()
+				r := w.tc.req(logical.UpdateOperation, "sys/leases/revoke", w.tc.root, map[string]any{"lease_id": l.leaseID, "sync": true})
+				w.hub.mu.Lock()
+				w.hub.failRevoke = was
+				w.hub.mu.Unlock()
+				w.logf("revoke of lease %s of token %d alone (backend refuses: %v) -> %v", l.leaseID, i, refuse, r)
+				if !refuse && !r.ok() {
+					fail("lease-revoke-failed", fmt.Sprintf("synchronous revocation of a lease of live token %d failed without any fault: %v", i, r))
+				}
+			},
 			"renew": func(rt *rapid.T) {
 				i := pickAlive("tok")
 				if i < 0 && len(w.toks) > 0 {
